@@ -251,6 +251,27 @@ fn triple_case<P: G>(cfg: Cfg, seeded: bool, tier: Tier) -> Box<dyn Case> {
                 }
             }
         }
+        // ---- transcript initial state of one member of a batch (first and last position)
+        for ctx2 in [contexts()[1], contexts()[3]] {
+            for altered_first in [true, false] {
+                res.transitions += 1;
+                let (sts, proofs, mut ts) = if altered_first {
+                    (vec![built.statement.clone(), comp.statement.clone()], vec![P::proof_clone(&proof), P::proof_clone(&comp_proof)], vec![ctx2.transcript(), ctx.transcript()])
+                } else {
+                    (vec![comp.statement.clone(), built.statement.clone()], vec![P::proof_clone(&comp_proof), P::proof_clone(&proof)], vec![ctx.transcript(), ctx2.transcript()])
+                };
+                let obs = verify_observed(&sts, &proofs, &mut ts, VerifyAction::VerifyOnly);
+                res.executions += 1;
+                res.validated += 1;
+                *res.outcome_counter(&format!("context-in-batch:{}", obs.class())) += 1;
+                if !obs.is_err() {
+                    res.violate(
+                        format!("context={}/in-batch(first={})", ctx2.key(), altered_first),
+                        format!("batch accepted although one member's transcript context was replaced: {}", obs.describe()),
+                    );
+                }
+            }
+        }
         // ---- seed presence never matters for the verdict of the unaltered triple (allowed alteration)
         if cfg.m == 1 {
             let st = restate(&built, built.commitments.clone(), wit.promises.clone(), if seeded { None } else { Some(seed_scalar(4)) }).unwrap();
